@@ -13,7 +13,12 @@ where
 {
 	let header: &[u8; 10] = slice
 		.get(0..10)
-		.ok_or_else(|| de::DeError::new("Slice is too short for single object encoding header"))?
+		.ok_or_else(|| {
+			de::DeError::custom_io(
+				"Slice is too short for single object encoding header",
+				std::io::ErrorKind::UnexpectedEof.into(),
+			)
+		})?
 		.try_into()
 		.unwrap();
 	check_header(header, schema)?;
